@@ -130,6 +130,18 @@ Theorem C11_tx_rejected_call_no_trace : forall (conv : atype -> pyval -> option 
 Proof. exact call_rejected. Qed.
 Print Assumptions C11_tx_rejected_call_no_trace.
 
+(* Storage faults during a call fail CLOSED.  While the table metadata cannot be read, append_data and
+   append_files raise at once and change nothing -- an unreadable schema is never taken for "no persisted schema,
+   nothing to enforce"; and under any fault window (metadata unreadable from the start, marker writes failing,
+   metadata unreadable once the call has written its data file) an append_data call never succeeds and queues
+   nothing, whatever its schema argument. *)
+Theorem C11_tx_fault_fails_closed : forall (conv : atype -> pyval -> option pyval) (w : world) (h : Z),
+  (forall arg recs, call_step conv w h (CRecordsF FBefore arg recs) = (w, [], tag_storage_fault, []))
+  /\ (forall fs, call_step conv w h (CFilesF FBefore fs) = (w, [], tag_storage_fault, []))
+  /\ (forall ft arg recs w' wr t added, call_step conv w h (CRecordsF ft arg recs) = (w', wr, t, added) -> t <> 0 /\ added = []).
+Proof. exact fault_fails_closed. Qed.
+Print Assumptions C11_tx_fault_fails_closed.
+
 (* A successful commit of ANY transaction (any calls, any of them rejected, any world) publishes exactly one
    snapshot holding the base files followed by the files queued by the ACCEPTED calls, in call order; when no
    call queued anything it publishes nothing.  `honest tr`: a call with a non-zero tag contributed []. *)
